@@ -10,3 +10,4 @@ mk ()
     [ -s mutants/$1/$2.patch ] || echo "EMPTY PATCH $2";
     rm -rf /tmp/mm
 }
+mkrev() { mkdir -p mutants/$1; git -C /repo show -R --format= $3 > mutants/$1/$2.patch; [ -s mutants/$1/$2.patch ] || echo EMPTY; }
